@@ -164,6 +164,40 @@ example : lineHolds Demo.O ⟨Demo.hk1, []⟩ [⟨sName, false, [⟨sRegex, [49]
     filterAndAnnotate Demo.O (Demo.filters ++ [[⟨sName, false, [⟨sRegex, [49]⟩]⟩]])
       (Demo.annos ++ [[]]) Demo.pool = .ok [(0, 0), (1, 0), (2, 0), (3, 5000000)] := by decide
 
+/-- **Locality.** Whether a node is a member, and with which annotation, depends on that node only
+(its name and tag) — not on the other nodes of the pool, not on its position, not on the pool size:
+the same node in two pools gets the same verdict and the same annotation. -/
+theorem selection_local (O : Oracle) (filters : List Line) (annos : List (List Param))
+    (p p' : List Node) (r r' : List (Nat × Int))
+    (h : filterAndAnnotate O filters annos p = .ok r)
+    (h' : filterAndAnnotate O filters annos p' = .ok r')
+    (i i' : Nat) (n : Node) (hn : p[i]? = some n) (hn' : p'[i']? = some n) (v : Int) :
+    (i, v) ∈ r ↔ (i', v) ∈ r' := by
+  obtain ⟨_, _, hr⟩ := accepted_result_is_meaning O filters annos p r h
+  obtain ⟨_, _, hr'⟩ := accepted_result_is_meaning O filters annos p' r' h'
+  by_cases hf : filters = []
+  · rw [if_pos hf] at hr hr'
+    subst hr hr'
+    rw [mem_allMembers_iff, mem_allMembers_iff]
+    constructor
+    · rintro ⟨_, hv⟩; exact ⟨⟨n, hn'⟩, hv⟩
+    · rintro ⟨_, hv⟩; exact ⟨⟨n, hn⟩, hv⟩
+  · rw [if_neg hf] at hr hr'
+    subst hr hr'
+    rw [mem_specMembers_iff, mem_specMembers_iff]
+    constructor
+    · rintro ⟨m, hm, hv⟩
+      rw [hn] at hm; obtain rfl := Option.some.inj hm
+      exact ⟨_, hn', hv⟩
+    · rintro ⟨m, hm, hv⟩
+      rw [hn'] at hm; obtain rfl := Option.some.inj hm
+      exact ⟨_, hn, hv⟩
+
+-- the two "hk-1"/no-tag nodes of different pools get the same 5 ms
+example : filterAndAnnotate Demo.O Demo.filters Demo.annos [⟨Demo.hk1, []⟩] = .ok [(0, 5000000)] ∧
+    filterAndAnnotate Demo.O Demo.filters Demo.annos Demo.pool = .ok [(1, 0), (2, 0), (3, 5000000)] := by
+  decide
+
 /-- A group without filters contains every node (annotation 0). -/
 theorem no_filter_all (O : Oracle) (pool : List Node) :
     ∃ r, filterAndAnnotate O [] [] pool = .ok r ∧ r.map Prod.fst = List.range pool.length ∧
@@ -205,7 +239,10 @@ example : LineValid Demo.O (Demo.filters.headD []) ∧
   ⟨(validateLine_none_iff _ _).mp (by decide), by decide, by decide⟩
 
 /-- The three kinds of value: exact = equality, `keyword:` = substring, `regex:` = the regex
-oracle; `name(...)` looks at the node name, `subtag(...)` at its subscription tag. -/
+oracle; `name(...)` looks at the node name, `subtag(...)` at its subscription tag.
+(A statement about the SPECIFICATION function `paramSat`. Its totalisations — an input other than
+`name` reads the tag, an unknown key is treated as exact, a non-compiling regex never matches —
+are never used by a code-facing theorem: those are all gated by `DefValid` / acceptance.) -/
 theorem value_semantics (O : Oracle) (n : Node) (fname : Str) (p : Param) :
     let subject := if fname = sName then n.name else n.tag
     (p.key = [] → (paramSat O n fname p = true ↔ subject = p.val)) ∧
@@ -241,9 +278,8 @@ example : containsSub Demo.hk1 [107, 45] = true ∧ containsSub Demo.hk1 [] = tr
 /-- A valid annotation yields the first non-zero `add_latency` of the list (0 if there is none) —
 "only the first setting is valid", as the code has it: a leading `0s` does not count. -/
 theorem annotation_first_nonzero (O : Oracle) (a : List Param) (hv : AnnoValid O a) :
-    newAnnotation O a = .ok (annoValue O a) ∧
-      annoValue O a = ((a.filterMap fun p => O.dur p.val).find? (· ≠ 0)).getD 0 :=
-  ⟨newAnnotation_of_valid O a hv, rfl⟩
+    newAnnotation O a = .ok (((a.filterMap fun p => O.dur p.val).find? (· ≠ 0)).getD 0) :=
+  newAnnotation_of_valid O a hv
 
 example : newAnnotation Demo.O [⟨sAddLatency, Demo.s0⟩, ⟨sAddLatency, Demo.ms5⟩, ⟨sAddLatency, Demo.s0⟩]
     = .ok 5000000 := by decide
